@@ -75,6 +75,13 @@ def build_harness(profiles):
             # seed the harness lockfile from the repository's (cargo adds the harness package itself)
             if not os.path.exists(lock_dst):
                 shutil.copy(lock_src, lock_dst)
+    # the harness depends on the repository by path: point it at the tree under test
+    ct = os.path.join(HARNESS, "Cargo.toml")
+    txt = open(ct).read()
+    new = re.sub(r'ckc-rs = \{ path = "[^"]*"', 'ckc-rs = { path = "%s"' % REPO, txt)
+    if new != txt:
+        with open(ct, "w") as f:
+            f.write(new)
     bins = {}
     for prof in profiles:
         t0 = time.time()
